@@ -70,6 +70,9 @@ func evalCases(cases []*Case, o *common.Options, rep *common.Report) error {
 		rep.Count("handle=" + strings.SplitN(obs.Handle, ":", 3)[min(1, len(strings.SplitN(obs.Handle, ":", 3))-1)])
 		rep.Count(fmt.Sprintf("reqs<=%d", (len(c.Reqs)+4)/5*5))
 		rep.Count(fmt.Sprintf("depth=%d", c.Depth))
+		if c.OriginMode != "" {
+			rep.Count("mode=" + c.OriginMode)
+		}
 		if c.Auth {
 			rep.Count("auth=on")
 		}
@@ -135,6 +138,8 @@ func main() {
 		// directed probes of the assigned findings first (stable keys F16:…, F17:…)
 		probes := findingProbes()
 		err = evalCases(probes, o, rep)
+		rep.Note("observation probe (notes only): response `Connection: close, X-Secret` + `X-Secret: ...` -> X-Secret reached the client: %v",
+			rep.Distribution["resp-hop-by-hop-forwarded:OBS:nominated"] > 0)
 		for _, k := range []string{"F16:trailer-fields-escape-filter", "F17:user-agent-invented", "N1:close-after-interim-drops-final"} {
 			if _, ok := rep.FindingsProbed[k]; !ok {
 				rep.FindingsProbed[k] = false
@@ -192,7 +197,15 @@ func findingProbes() []*Case {
 	n1.Reqs = []Req{{Method: "POST", Target: "http://example.com/once", HostHdr: "example.com", SendHost: true, Host: "example.com", Path: "/once", Close: true,
 		Headers: []HF{{K: "Connection", V: "close", Pad: " "}, {K: "User-Agent", V: "probe", Pad: " "}, {K: "X-Rid", V: "0", Pad: " "}}, Body: Body{Kind: "cl", Data: []byte("data")}}}
 	n1.Scripts = []Script{{Resps: []Resp{{Status: 100, Reason: "Continue", Headers: []HF{{K: "X-Resp-Id", V: "r0.0", Pad: " "}}, Body: Body{Kind: "none"}}, ok.Resps[0]}}}
-	return []*Case{f16, f17, n1}
+	// observation (notes only, outside the statement): a response whose Connection field carries `close` AND nominates a field:
+	// net/http deletes that Connection field while parsing, so the nomination is lost before the filter runs
+	ob := base()
+	ob.Kind = "probe-observation"
+	ob.Reqs = []Req{f17.Reqs[0]}
+	ob.Reqs[0].Headers = append([]HF{{K: "User-Agent", V: "probe", Pad: " "}}, ob.Reqs[0].Headers...)
+	ob.Scripts = []Script{{Resps: []Resp{{Status: 200, Reason: "OK", Close: true, Body: Body{Kind: "cl", Data: []byte("hi")},
+		Headers: []HF{{K: "Connection", V: "close, X-Secret", Pad: " "}, {K: "X-Secret", V: "hop-by-hop", Pad: " "}, {K: "X-Resp-Id", V: "r0", Pad: " "}}}}}}
+	return []*Case{f16, f17, n1, ob}
 }
 
 func init() {
